@@ -18,15 +18,47 @@ def _free(port):
         s.close()
 
 
+PORT_DIR = os.path.join(tempfile.gettempdir(), "verif-ports")
+
+
+def _claim(port):
+    """Cross-process reservation: one file per port, created exclusively; stale claims (> 1 h) are reclaimed."""
+    os.makedirs(PORT_DIR, exist_ok=True)
+    path = os.path.join(PORT_DIR, str(port))
+    try:
+        fd = os.open(path, os.O_CREAT | os.O_EXCL | os.O_WRONLY)
+        os.write(fd, str(os.getpid()).encode())
+        os.close(fd)
+        return True
+    except FileExistsError:
+        try:
+            if time.time() - os.path.getmtime(path) > 3600:
+                os.unlink(path)
+        except OSError:
+            pass
+        return False
+
+
+def release_ports(ports):
+    for p in ports:
+        try:
+            os.unlink(os.path.join(PORT_DIR, str(p)))
+        except OSError:
+            pass
+
+
 def alloc_ports(n=2):
-    """Ports from 20000-29999 (outside the ephemeral range), test-bound before use."""
+    """Ports from 20000-29999 (outside the ephemeral range), reserved across processes and test-bound before use."""
     with _port_lock:
         out = []
         while len(out) < n:
             c = next(_port_counter)
             p = 20000 + (os.getpid() * 131 + c * 7) % 10000
-            if p not in out and _free(p):
-                out.append(p)
+            if p not in out and _claim(p):
+                if _free(p):
+                    out.append(p)
+                else:
+                    release_ports([p])
         return out
 
 
@@ -246,6 +278,7 @@ class Fixture:
             except Exception:
                 pass
         shutil.rmtree(self.root, ignore_errors=True)
+        release_ports([self.lock_port, self.log_port])
 
 
 def decode_zst(path):
